@@ -305,6 +305,46 @@ func clampShard(dir string, rel string) {
 	os.WriteFile(p, clampPrefixes(bs, 1), 0644)
 }
 
+// deltaChurn returns a hook fragment that, at the first item written by a delta-mode backup, deletes
+// half of the snapshot's items, closes every snapshot and lets the collector reclaim them: those items
+// then exist only in the delta files.
+func deltaChurn(e *mvExec, stored [][]byte) func(p int) {
+	fired := false
+	var hmu sync.Mutex
+	return func(p int) {
+		if p != nitro.VerifPtStoreItem {
+			return
+		}
+		hmu.Lock()
+		defer hmu.Unlock()
+		if fired {
+			return
+		}
+		fired = true
+		for i, it := range stored {
+			if i%2 == 1 {
+				e.apply(mvOp{Op: "del", W: 0, Bs: b2i(it)})
+			}
+		}
+		for s2, c := range e.ref.snapRef {
+			for ; c > 0; c-- {
+				e.snaps[s2].Close()
+				e.ref.snapRef[s2]--
+			}
+		}
+		e.apply(mvOp{Op: "snap"})
+		e.apply(mvOp{Op: "close", Sn: int(e.ref.currSn - 1)})
+		e.db.GC()
+		deadline := time.Now().Add(5 * time.Second)
+		for time.Now().Before(deadline) {
+			if atomic.LoadInt64(&hookGCSent)-e.base[0] == atomic.LoadInt64(&hookGCDone)-e.base[1] {
+				break
+			}
+			time.Sleep(100 * time.Microsecond)
+		}
+	}
+}
+
 // ---- the C11 run ---------------------------------------------------------------------------------
 
 type diskDB struct {
@@ -339,40 +379,10 @@ func buildDiskDB(r *rand.Rand, tmp string, delta bool, nops int) *diskDB {
 		// them: they then exist only in the delta files.
 		e.ref.snapRef[sn]--
 		prev := nitro.VerifYieldHook
-		fired := false
-		var hmu sync.Mutex
+		churn := deltaChurn(e, d.stored)
 		nitro.VerifYieldHook = func(p int) {
 			prev(p)
-			if p != nitro.VerifPtStoreItem {
-				return
-			}
-			hmu.Lock()
-			defer hmu.Unlock()
-			if fired {
-				return
-			}
-			fired = true
-			for i, it := range d.stored {
-				if i%2 == 1 {
-					e.apply(mvOp{Op: "del", W: 0, Bs: b2i(it)})
-				}
-			}
-			for s2, c := range e.ref.snapRef {
-				for ; c > 0; c-- {
-					e.snaps[s2].Close()
-					e.ref.snapRef[s2]--
-				}
-			}
-			e.apply(mvOp{Op: "snap"})
-			e.apply(mvOp{Op: "close", Sn: int(e.ref.currSn - 1)})
-			e.db.GC()
-			deadline := time.Now().Add(5 * time.Second)
-			for time.Now().Before(deadline) {
-				if atomic.LoadInt64(&hookGCSent)-e.base[0] == atomic.LoadInt64(&hookGCDone)-e.base[1] {
-					break
-				}
-				time.Sleep(100 * time.Microsecond)
-			}
+			churn(p)
 		}
 		defer func() { nitro.VerifYieldHook = prev }()
 	} else {
@@ -634,7 +644,13 @@ func diskStoreRun(a runArgs, sink *CaseSink) error {
 		c := diskCase{DB: *in, Sn: int(sn), Delta: delta, Conc: []int{1, 2, 8}[top.Intn(3)], Block: block}
 		stored := e.ref.snapItm[sn]
 		snap := e.snaps[sn]
-		snap.Open()
+		churn := func(int) {}
+		if delta {
+			e.ref.snapRef[sn]--
+			churn = deltaChurn(e, stored)
+		} else {
+			snap.Open()
+		}
 		dir := filepath.Join(dtmp, "store")
 		var images []string
 		var imu sync.Mutex
@@ -644,6 +660,7 @@ func diskStoreRun(a runArgs, sink *CaseSink) error {
 			if prevHook != nil {
 				prevHook(p)
 			}
+			churn(p)
 			if p == nitro.VerifPtStoreStep || p == nitro.VerifPtStoreItem {
 				imu.Lock()
 				defer imu.Unlock()
